@@ -119,9 +119,9 @@ Proof.
     assert (He : wf_entry ops (length t) e) by (unfold wf_entry; cbn; repeat split; auto; lia).
     destruct (push_zero t s e G He) as [X T]. exists (s ++ [rO]). split; [exact X|].
     split; [cbn; rewrite Hv; reflexivity|]. cbn [r_hist r_idx]. split; [rewrite app_length; cbn; lia|].
-    rewrite T. cbn [lw rw lp rp e]. rewrite Hd, Hv. cbn. ring.
+    rewrite T. subst e. unfold db, du. cbn [fst snd lw rw lp rp]. rewrite Hd, Hv. cbn. ring.
   - intros E. inversion E; subst t' y; clear E. exists s. split; [apply ext_refl; exact G|].
-    split; [cbn; rewrite Hv; reflexivity|]. cbn. rewrite Ht. ring.
+    split; [cbn; rewrite Hv; reflexivity|]. unfold du. cbn [fst snd r_hist]. rewrite Ht. ring.
 Qed.
 
 Lemma rec_binary_ok t s f x y dx dy t' z : good t s -> rec_ok t s x dx -> rec_ok t s y dy ->
@@ -136,24 +136,177 @@ Proof.
     assert (He : wf_entry ops (length t) e) by (unfold wf_entry; cbn; repeat split; intros; lia).
     destruct (push_zero t s e G He) as [X T]. exists (s ++ [rO]). split; [exact X|].
     split; [cbn; rewrite Hvx, Hvy; reflexivity|]. cbn [r_hist r_idx]. split; [rewrite app_length; cbn; lia|].
-    rewrite T. cbn [lw rw lp rp e]. rewrite Hdx, Hdy, Hvx, Hvy. reflexivity.
+    rewrite T. subst e. unfold db, du. cbn [fst snd lw rw lp rp]. rewrite Hdx, Hdy, Hvx, Hvy. ring.
   - destruct Htx as [Hpx Hdx]. cbn [append_unary]. intros E. inversion E; subst t' z; clear E.
     set (e := mkEntry (r_idx x) (length t) (bdx f (r_num x) (r_num y)) rO).
     assert (He : wf_entry ops (length t) e) by (unfold wf_entry; cbn; repeat split; auto; lia).
     destruct (push_zero t s e G He) as [X T]. exists (s ++ [rO]). split; [exact X|].
     split; [cbn; rewrite Hvx, Hvy; reflexivity|]. cbn [r_hist r_idx]. split; [rewrite app_length; cbn; lia|].
-    rewrite T. cbn [lw rw lp rp e]. rewrite Hdx, Hty, Hvx, Hvy. cbn. ring.
+    rewrite T. subst e. unfold db, du. cbn [fst snd lw rw lp rp]. rewrite Hdx, Hty, Hvx, Hvy. cbn. ring.
   - destruct Hty as [Hpy Hdy]. cbn [append_unary]. intros E. inversion E; subst t' z; clear E.
     set (e := mkEntry (r_idx y) (length t) (bdy f (r_num x) (r_num y)) rO).
     assert (He : wf_entry ops (length t) e) by (unfold wf_entry; cbn; repeat split; auto; lia).
     destruct (push_zero t s e G He) as [X T]. exists (s ++ [rO]). split; [exact X|].
     split; [cbn; rewrite Hvx, Hvy; reflexivity|]. cbn [r_hist r_idx]. split; [rewrite app_length; cbn; lia|].
-    rewrite T. cbn [lw rw lp rp e]. rewrite Hdy, Htx, Hvx, Hvy. cbn. ring.
+    rewrite T. subst e. unfold db, du. cbn [fst snd lw rw lp rp]. rewrite Hdy, Htx, Hvx, Hvy. cbn. ring.
   - intros E. inversion E; subst t' z; clear E. exists s. split; [apply ext_refl; exact G|].
-    split; [cbn; rewrite Hvx, Hvy; reflexivity|]. cbn. rewrite Htx, Hty. ring.
+    split; [cbn; rewrite Hvx, Hvy; reflexivity|]. unfold db. cbn [fst snd r_hist]. rewrite Htx, Hty. ring.
 Qed.
 
 Lemma rec_constant_ok t s c : rec_ok t s (rec_constant c) (c, rO).
 Proof. split; reflexivity. Qed.
+
+
+(* Neg on a variable is computed as Record::constant(0) - x *)
+Lemma rec_neg_ok t s x d t' y : good t s -> rec_ok t s x d ->
+  rec_neg ops t x = Ok (t', y) ->
+  exists s', ext t s t' s' /\ rec_ok t' s' y (du (Negation ops) d).
+Proof.
+  intros G Hx. unfold rec_neg. destruct (r_hist x) as [h|] eqn:Eh.
+  - intros E. destruct (rec_binary_ok t s (Subtraction ops) (rec_constant rO) x (rO, rO) d t' y G
+                          (rec_constant_ok t s rO) Hx E) as [s' [X [Hv Ht]]].
+    exists s'. split; [exact X|]. split.
+    + rewrite Hv. unfold db, du. cbn. ring.
+    + destruct (r_hist y); [destruct Ht as [Hp Hd]; split; [exact Hp|]; rewrite Hd|rewrite Ht];
+        unfold db, du; cbn; ring.
+  - intros E. inversion E; subst t' y; clear E. exists s. split; [apply ext_refl; exact G|].
+    destruct Hx as [Hv Ht]. rewrite Eh in Ht. split; [cbn; rewrite Hv; reflexivity|].
+    unfold du. cbn [fst snd r_hist]. rewrite Ht. ring.
+Qed.
+
+Definition code_fn (code : nat) (c : R) : option (unfn R) := unfn_of ops code c.
+
+Lemma rec_unary_code_ok t s code c f x d t' y : good t s -> rec_ok t s x d ->
+  unfn_of ops code c = Some f ->
+  rec_unary_code ops t code c x = Some (Ok (t', y)) ->
+  exists s', ext t s t' s' /\ rec_ok t' s' y (du f d).
+Proof.
+  intros G Hx Hf. unfold rec_unary_code. destruct code as [|code].
+  - cbn in Hf. inversion Hf; subst f. intros E. inversion E as [E']. eapply rec_neg_ok; eauto.
+  - rewrite Hf. intros E. inversion E as [E']. eapply rec_unary_ok; eauto.
+Qed.
+
+(* ------------------------------------------------------------------ lists of records *)
+Definition recs_ok (t : tape) (s : list R) (rs : list rec) (ds : list dual) : Prop :=
+  Forall2 (rec_ok t s) rs ds.
+
+Lemma recs_ok_ext t s t' s' rs ds : ext t s t' s' -> recs_ok t s rs ds -> recs_ok t' s' rs ds.
+Proof.
+  intros [_ [_ M]] H. induction H; constructor; auto.
+Qed.
+
+Definition db2 (f : binfn R) (dxs dys : list dual) : list dual :=
+  map (fun p => db f (fst p) (snd p)) (combine dxs dys).
+
+Lemma each_binary_ok f : forall xs dxs ys dys t s t' zs, good t s ->
+  recs_ok t s xs dxs -> recs_ok t s ys dys ->
+  each_binary ops t f xs ys = Ok (t', zs) ->
+  exists s', ext t s t' s' /\ recs_ok t' s' zs (db2 f dxs dys).
+Proof.
+  induction xs as [|x xr IH]; intros dxs ys dys t s t' zs G Hx Hy.
+  - cbn. intros E. inversion E; subst. exists s. split; [apply ext_refl; auto|].
+    inversion Hx; subst. constructor.
+  - inversion Hx as [|? dx ? dxr Hx1 Hxr]; subst. destruct ys as [|y yr].
+    + cbn. intros E. inversion E; subst. exists s. split; [apply ext_refl; auto|].
+      inversion Hy; subst. constructor.
+    + inversion Hy as [|? dy ? dyr Hy1 Hyr]; subst. cbn [each_binary].
+      destruct (rec_binary ops t f x y) as [[t1 z]| |] eqn:E1; try discriminate.
+      destruct (rec_binary_ok t s f x y dx dy t1 z G Hx1 Hy1 E1) as [s1 [X1 Hz]].
+      destruct (each_binary ops t1 f xr yr) as [[t2 zr]| |] eqn:E2; try discriminate.
+      intros E. inversion E; subst t' zs; clear E.
+      destruct (IH dxr yr dyr t1 s1 t2 zr (proj1 (proj2 X1)) (recs_ok_ext _ _ _ _ _ _ X1 Hxr)
+                   (recs_ok_ext _ _ _ _ _ _ X1 Hyr) E2) as [s2 [X2 Hzr]].
+      exists s2. split; [eapply ext_trans; eauto|].
+      constructor; [|exact Hzr]. destruct X2 as [_ [_ M]]. apply M. exact Hz.
+Qed.
+
+Lemma each_unary_ok code c f : unfn_of ops code c = Some f ->
+  forall rs ds t s t' ys, good t s -> recs_ok t s rs ds ->
+  each_unary ops t code c rs = Some (Ok (t', ys)) ->
+  exists s', ext t s t' s' /\ recs_ok t' s' ys (map (du f) ds).
+Proof.
+  intros Hf. induction rs as [|r rest IH]; intros ds t s t' ys G Hr.
+  - cbn. intros E. inversion E; subst. exists s. split; [apply ext_refl; auto|].
+    inversion Hr; subst. constructor.
+  - inversion Hr as [|? d ? dr Hr1 Hrr]; subst. cbn [each_unary].
+    destruct (rec_unary_code ops t code c r) as [[[t1 y]| |]|] eqn:E1; try discriminate.
+    destruct (rec_unary_code_ok t s code c f r d t1 y G Hr1 Hf E1) as [s1 [X1 Hy]].
+    destruct (each_unary ops t1 code c rest) as [[[t2 yr]| |]|] eqn:E2; try discriminate.
+    intros E. inversion E; subst t' ys; clear E.
+    destruct (IH dr t1 s1 t2 yr (proj1 (proj2 X1)) (recs_ok_ext _ _ _ _ _ _ X1 Hrr) E2) as [s2 [X2 Hyr]].
+    exists s2. split; [eapply ext_trans; eauto|].
+    cbn [map]. constructor; [|exact Hyr]. destruct X2 as [_ [_ M]]. apply M. exact Hy.
+Qed.
+
+(* ------------------------------------------------------------------ the batch helpers *)
+Definition mk (h : hist) (p : R * nat) : rec := mkRec (fst p) h (snd p).
+
+Lemma as_records_mk (x : cont) : as_records x = map (mk (c_hist x)) (c_data x).
+Proof. reflexivity. Qed.
+
+Fixpoint thread_un (t : tape) (f : unfn R) (rs : list rec) : tape * list rec :=
+  match rs with
+  | [] => (t, [])
+  | r :: rest =>
+      let '(t1, y) := rec_unary ops t f r in
+      let '(t2, ys) := thread_un t1 f rest in (t2, y :: ys)
+  end.
+
+Lemma thread_un_ok f : forall rs ds t s t' ys, good t s -> recs_ok t s rs ds ->
+  thread_un t f rs = (t', ys) ->
+  exists s', ext t s t' s' /\ recs_ok t' s' ys (map (du f) ds).
+Proof.
+  induction rs as [|r rest IH]; intros ds t s t' ys G Hr.
+  - cbn. intros E. inversion E; subst. exists s. split; [apply ext_refl; auto|].
+    inversion Hr; subst. constructor.
+  - inversion Hr as [|? d ? dr Hr1 Hrr]; subst. cbn [thread_un].
+    destruct (rec_unary ops t f r) as [t1 y] eqn:E1.
+    destruct (rec_unary_ok t s f r d t1 y G Hr1 E1) as [s1 [X1 Hy]].
+    destruct (thread_un t1 f rest) as [t2 yr] eqn:E2.
+    intros E. inversion E; subst t' ys; clear E.
+    destruct (IH dr t1 s1 t2 yr (proj1 (proj2 X1)) (recs_ok_ext _ _ _ _ _ _ X1 Hrr) E2) as [s2 [X2 Hyr]].
+    exists s2. split; [eapply ext_trans; eauto|].
+    cbn [map]. constructor; [|exact Hyr]. destruct X2 as [_ [_ M]]. apply M. exact Hy.
+Qed.
+
+Lemma unary_loop_eq h f : forall records t,
+  thread_un t f (map (mk (Some h)) records) =
+  let '(t', ys) := unary_loop ops t f records in (t', map (mk (Some h)) ys).
+Proof.
+  induction records as [|[x p] r IH]; intros t; cbn; [reflexivity|].
+  rewrite IH. destruct (unary_loop ops _ f r). reflexivity.
+Qed.
+
+Lemma both_loop_eq h f : forall xs ys t,
+  each_binary ops t f (map (mk (Some h)) xs) (map (mk (Some h)) ys) =
+  let '(t', zs) := binary_both_loop ops t f xs ys in Ok (t', map (mk (Some h)) zs).
+Proof.
+  induction xs as [|[x p1] xr IH]; intros [|[y p2] yr] t; cbn; try reflexivity.
+  rewrite Nat.eqb_refl. cbn. rewrite IH. destruct (binary_both_loop ops _ f xr yr). reflexivity.
+Qed.
+
+Lemma x_loop_eq h f : forall xs ys t,
+  each_binary ops t f (map (mk (Some h)) xs) (map (mk None) ys) =
+  let '(t', zs) := binary_x_loop ops t f xs ys in Ok (t', map (mk (Some h)) zs).
+Proof.
+  induction xs as [|[x p1] xr IH]; intros [|[y p2] yr] t; cbn; try reflexivity.
+  rewrite IH. destruct (binary_x_loop ops _ f xr yr). reflexivity.
+Qed.
+
+Lemma y_loop_eq h f : forall xs ys t,
+  each_binary ops t f (map (mk None) xs) (map (mk (Some h)) ys) =
+  let '(t', zs) := binary_y_loop ops t f xs ys in Ok (t', map (mk (Some h)) zs).
+Proof.
+  induction xs as [|[x p1] xr IH]; intros [|[y p2] yr] t; cbn; try reflexivity.
+  rewrite IH. destruct (binary_y_loop ops _ f xr yr). reflexivity.
+Qed.
+
+Lemma none_loop_eq f : forall xs ys t,
+  each_binary ops t f (map (mk None) xs) (map (mk None) ys) =
+  Ok (t, map (mk None) (map (fun p => (bf f (fst (fst p)) (fst (snd p)), 0)) (combine xs ys))).
+Proof.
+  induction xs as [|[x p1] xr IH]; intros [|[y p2] yr] t; cbn; try reflexivity.
+  rewrite IH. reflexivity.
+Qed.
 
 End C06.
